@@ -373,6 +373,41 @@ def run(ctx):
         if sigs.get("threshold 0.5") != sigs.get("threshold 0.5 again"):
             res.violations.append({"what": "two equal dataclass arguments (built one after the other: the class counts its instances in a class variable) get two signatures",
                                    "input": {"function": src, "argument": "Settings('m')"}, "kf": None})
+    # the callee is a class that has methods but no __init__ of its own (a dataclass, a typing.NamedTuple): its arguments are the
+    # binding like those of a function - different arguments, different signatures and the object of plain execution
+    with ws.Workspace("c13f") as w:
+        src = ("import dds\nimport dataclasses\nimport typing\n\n"
+               "@dataclasses.dataclass\nclass Cfg(object):\n    rate: int\n    depth: int = 2\n\n    def total(self):\n        return self.rate * self.depth\n\n"
+               "class Pt(typing.NamedTuple):\n    x: int\n    y: int = 0\n\n    def norm(self):\n        return abs(self.x) + abs(self.y)\n")
+        mod = w.write_module(w.unique("c13f"), src)
+        for cname, calls in (("Cfg", [((1,), {}), ((3,), {}), ((1,), {"depth": 4}), ((), {"rate": 1}), ((1, 2), {})]),
+                             ("Pt", [((1,), {}), ((3,), {}), ((1,), {"y": 4}), ((), {"x": 1}), ((1, 0), {})])):
+            cls_ = getattr(mod, cname)
+            by_sig = {}
+            for ci, (a_, k_) in enumerate(calls):
+                store.synced.clear()
+                pth = "/obj_%s_%d" % (cname, ci)
+                try:
+                    got = dds.keep(pth, cls_, *a_, **k_)
+                    sig = store.synced[-1][pth]
+                except BaseException as ex:
+                    got, sig = "EXC:" + type(ex).__name__ + ":" + str(ex)[:80], None
+                    ws.reset_dds_state()
+                res.evaluations += 1
+                res.nontrivial("class callee %s %d" % (cname, ci))
+                want = cls_(*a_, **k_)
+                if isinstance(got, str) and got.startswith("EXC:DDSException"):
+                    res.count("class_callee_refused")
+                    continue
+                if got != want:
+                    res.violations.append({"what": "a kept call of the class %s with the arguments %r %r returned %r, plain execution gives %r" % (cname, a_, k_, got, want),
+                                           "input": {"classes": src, "callee": cname, "args": repr(a_), "kwargs": repr(k_)}, "kf": None})
+                    continue
+                prev = by_sig.get(sig)
+                if prev is not None and prev != want:
+                    res.violations.append({"what": "two calls of the class %s that bind different values (%r and %r) share one signature" % (cname, prev, want),
+                                           "input": {"classes": src, "callee": cname, "signature": sig}, "kf": None})
+                by_sig.setdefault(sig, want)
     # unsupported parameter kinds (unit level only)
     ns = {}
     exec("def g1(a, *rest):\n    return 1\ndef g2(a, *, k=1):\n    return 1\ndef g3(a, **kw):\n    return 1\n", ns)
